@@ -4,12 +4,11 @@ Model-free (the ownership model Shutdown.v is tied to the in-memory broker): aft
 settled, every message must be in exactly one place on the server and none may be in flight (Redis: marked as processing;
 RabbitMQ: unacknowledged) - the worker holds nothing any more.
 
-One window is a recorded finding (`stop_inside_consume_tail`): consume() is wrapped by the middleware wrapper, which runs it
-in a child task and emits `after_consume` before returning; a stop that cancels the queue loop in exactly that tail - the
-child has taken the message out of the consumer's buffer, the loop has not received it - leaves the message in nobody's
-hands.  It is recognised by its signature: the message was never executed and it is the LAST message the inner consume() of
-some consumer returned while that consumer's queue loop has received fewer messages than its consume() returned (the loop's
-receipts are counted at its first action on a message, the look-up of the actor)."""
+The hand-over of a message from consume() to the queue loop is watched separately (`not_received` in the replay: the last
+message a consumer's inner consume() returned while its loop has received fewer messages than were returned): the window in
+which a stop lands between the two - consume() runs in a child task of the middleware wrapper, which emits `after_consume`
+before returning - was a recorded finding (`stop_inside_consume_tail`) until the repair aeff44b; two scenarios subscribe
+suspending `before_consume` / `after_consume` functions so that the window is several iterations wide."""
 import asyncio
 import signal
 
@@ -18,9 +17,10 @@ from ..common import Failure
 from ..vloop import run_virtual
 
 S = 1_000_000
-# (durations by job, graceful time, number of queues, messages_limit, tasks_limit, number of jobs)
+# (durations by job, graceful time, number of queues, messages_limit, tasks_limit, number of jobs[, suspending consume-subscribers])
 SCENARIOS = [([0.0, 0.05, 0.3], 0.01, 1, None, 2, 4), ([0.0], 0.0, 1, None, 2, 4), ([0.2, 0.0, 0.05], 0.1, 1, None, 2, 4),
-             ([0.0, 0.05, 0.3], 0.01, 2, None, 3, 8), ([0.05], 0.0, 2, 1, 2, 4), ([0.0, 0.05, 0.3], 0.01, 2, 2, 3, 6), ([0.05], 0.0, 2, 2, 3, 6)]
+             ([0.0, 0.05, 0.3], 0.01, 2, None, 3, 8), ([0.05], 0.0, 2, 1, 2, 4), ([0.0, 0.05, 0.3], 0.01, 2, 2, 3, 6), ([0.05], 0.0, 2, 2, 3, 6),
+             ([0.0, 0.05, 0.3], 0.01, 1, None, 2, 4, True), ([0.05], 0.0, 2, 2, 3, 6, True)]
 
 
 class _LogDict(dict):
@@ -35,7 +35,7 @@ class _LogDict(dict):
         return super().__getitem__(k)
 
 
-async def one_run(loop, which, k, durs, graceful, n_queues=1, limit=None, tasks_limit=2, n_jobs=4):
+async def one_run(loop, which, k, durs, graceful, n_queues=1, limit=None, tasks_limit=2, n_jobs=4, subscribers=False):
     from repid import BasicConverter, Connection, InMemoryBucketBroker, Job, Queue, Router, Worker
     from repid._runner import _Runner
     if which == "redis":
@@ -46,6 +46,16 @@ async def one_run(loop, which, k, durs, graceful, n_queues=1, limit=None, tasks_
         ISSUER.set(("api",))
     mb = w.mb
     conn = Connection(mb, InMemoryBucketBroker(), InMemoryBucketBroker(use_result_bucket=True))
+    if subscribers:
+        # subscribers of the consume signals which take some loop iterations: the message is on its way through them
+        async def before_consume() -> None:
+            await asyncio.sleep(0)
+
+        async def after_consume(result) -> None:
+            for _ in range(3):
+                await asyncio.sleep(0)
+        conn.middleware.add_subscriber(before_consume)
+        conn.middleware.add_subscriber(after_consume)
     ran: list = []
     handed: dict = {}            # message -> loop iteration at which the INNER consume() returned it
     returned: dict = {}          # consumer -> [number of messages its inner consume() returned, the last of them]
@@ -130,7 +140,7 @@ async def one_run(loop, which, k, durs, graceful, n_queues=1, limit=None, tasks_
     dup = [i for i, p in pl.items() if len(p) != 1]
     not_received = sorted(r[1] for cid, r in returned.items() if r[0] > received.get(cid, 0))
     return {"k": k, "durs": durs, "graceful": graceful, "queues": n_queues, "messages_limit": limit, "tasks_limit": tasks_limit, "jobs": n_jobs,
-            "err": err, "fired": fired.get("it"), "inflight": inflight, "dup": dup,
+            "subscribers": subscribers, "err": err, "fired": fired.get("it"), "inflight": inflight, "dup": dup,
             "places": pl, "ran": list(ran), "handed": dict(handed), "not_received": not_received}
 
 
@@ -144,10 +154,10 @@ def worker_stop_cuts(ctx, res) -> None:
         loop.set_exception_handler(lambda l, c: None)
         # the window in which the worker consumes starts later on RabbitMQ (its start-up takes some ninety iterations)
         for which, k0 in (("redis", 0), ("rabbit", 70)):
-            for durs, graceful, nq, limit, tl, nj in SCENARIOS:
-                for k in range(k0, k0 + ctx.scale(90, 180), 1):
+            for durs, graceful, nq, limit, tl, nj, *subs in SCENARIOS:
+                for k in range(k0, k0 + ctx.scale(90, 180) + (40 if subs else 0), 1):
                     loop.max_iterations = loop.iteration + 400_000
-                    o = await one_run(loop, which, k, durs, graceful, nq, limit, tl, nj)
+                    o = await one_run(loop, which, k, durs, graceful, nq, limit, tl, nj, bool(subs))
                     o["broker"] = which
                     outs.append(o)
     try:
@@ -159,20 +169,14 @@ def worker_stop_cuts(ctx, res) -> None:
             res.count("worker_stop_runs_where_the_stop_came_after_the_end")      # the worker was idle: the hook never fired
             continue
         res.count("worker_stop_cut_runs")
-        res.add_case(f"wstop:{o['broker']}:{o['durs']}:{o['graceful']}:{o['queues']}:{o['messages_limit']}:{o['k']}:{sorted(o['places'].items())}", bool(o["ran"]))
+        res.add_case(f"wstop:{o['broker']}:{o['durs']}:{o['graceful']}:{o['queues']}:{o['messages_limit']}:{o['subscribers']}:{o['k']}:{sorted(o['places'].items())}", bool(o["ran"]))
         if o["err"]:
             res.failures.append(Failure("worker_on_broker_did_not_stop", f"{o['broker']}: run() did not return after the stop at iteration {o['k']}: {o['err']}",
                                         {"worker_stop_cut": {k: v for k, v in o.items() if k != "places"}}, None))
             continue
         if not o["inflight"] and not o["dup"]:
             continue
-        tail = [m for m in o["inflight"] if m not in o["ran"] and m in o["not_received"]]
-        if o["inflight"] and tail == o["inflight"] and not o["dup"]:
-            res.failures.append(Failure("stop_inside_consume_tail", f"{o['broker']}: stop at loop iteration {o['fired']}, the inner consume() had returned "
-                                        f"message {tail} at iteration {[o['handed'][m] for m in tail]} and the queue loop had not received it yet: it stays in "
-                                        f"flight, held by nobody ({o['places']})", {"worker_stop_cut": o}, None))
-        else:
-            res.failures.append(Failure("worker_stop_leaves_message_in_flight" if o["inflight"] else "worker_stop_duplicates",
+        res.failures.append(Failure("worker_stop_leaves_message_in_flight" if o["inflight"] else "worker_stop_duplicates",
                                         f"{o['broker']}: stop at loop iteration {o['fired']} (graceful {o['graceful']} s): after run() returned, in flight "
                                         f"{o['inflight']}, not in exactly one place {o['dup']}: {o['places']} (executed {o['ran']})",
                                         {"worker_stop_cut": o}, None))
